@@ -46,13 +46,13 @@ def WellFormed (v : Val) : Prop := Typing.checkVal false v (typeOf v) = true ∧
 body (its MAP bodies keep the element type) -/
 def StrictWF (v : Val) : Prop := Typing.checkVal true v (typeOf v) = true ∧ Typing.litOk v = true
 
-/-- **shape digests**: for each of the 98 instruction forms, the helpers (`execute_dip`, `execute_shift`, `dispatch_types`
+/-- **shape digests**: for each of the 99 instruction forms, the helpers (`execute_dip`, `execute_shift`, `dispatch_types`
 …) and the `MichelsonStack` / `PairType` / `from_value` methods they call, the normalised statement list in the source
 is the one the mirror `Impl` was written from (translator/c01.py, `SHAPES`) -/
 theorem source_bodies_recognised : Generated.C01.bodyRecognised.all (·.2) = true := by decide
 
-/-- the digest list covers all 98 instruction forms -/
-theorem source_bodies_cover_all_forms : Generated.C01.modelledForms = 98 ∧ 98 ≤ Generated.C01.bodyRecognised.length := by
+/-- the digest list covers all 99 instruction forms -/
+theorem source_bodies_cover_all_forms : Generated.C01.modelledForms = 99 ∧ 99 ≤ Generated.C01.bodyRecognised.length := by
   decide +kernel
 
 /-- the `dispatch_types` tables read from arithmetic.py are the reference tables -/
@@ -223,7 +223,7 @@ end
 the PUSHed lambda literals, in LAMBDA bodies — leaves an element of the type it was given.  For such programs, run on
 strictly well-typed values (`StrictWF`: the lambdas on the input stack have strictly typed bodies too), the guard of
 `welltyped_run_eq_reference` never fires, so C01's statement holds with static hypotheses only.  The invariant "every
-lambda on the stack has a strictly typed body" is carried through all 98 instruction forms by the same preservation /
+lambda on the stack has a strictly typed body" is carried through all 99 instruction forms by the same preservation /
 progress development as the non-strict one, instantiated at the mode `Mode.strictGuarded`. -/
 
 /-- strict typing refines typing: same result -/
@@ -429,6 +429,19 @@ example : Impl.run envC 20 (.seq [.PUSH .keyHash (.atom .keyHash [116, 122, 49])
 example : Typing.typeInstr false (.seq [.PUSH .address (.atom .address [75, 84, 50, 37, 97]), .CONTRACT .nat defaultEp,
       .IF_NONE (.seq [.UNIT, .FAILWITH]) (.seq [.PUSH .mutez (.num .mutez 0), .PUSH .nat (.num .nat 7), .TRANSFER_TOKENS]),
       .NIL .operation, .SWAP, .CONS]) [] = some (.ok [.list .operation]) := by rfl
+
+-- phase B (first half): PACK = `05` + binary Micheline of the canonical optimized form — a comb of two components is
+-- `Pair a b` (`07 07 …`), of four the sequence of its components (`02 <length> …`), a map a sequence of `Elt`s
+example : Spec.eval true env0 20 (.seq [.PUSH (.pair .int .nat) (.pair (.num .int 1) (.num .nat 2)), .PACK]) []
+    = .ok [.bytes [5, 7, 7, 0, 1, 0, 2]] := by rfl
+example : Spec.eval true env0 20 (.seq [.PUSH (.pair .int (.pair .nat (.pair .unit .string)))
+      (.pair (.num .int (-1)) (.pair (.num .nat 5) (.pair .unit (.str [97])))), .PACK]) []
+    = .ok [.bytes [5, 2, 0, 0, 0, 12, 0, 65, 0, 5, 3, 11, 1, 0, 0, 0, 1, 97]] := by rfl
+example : Impl.run env0 20 (.seq [.PUSH (.map .string (.option .bool)) (.map .string (.option .bool) [.pair (.str [97]) (.some (.bool true))]), .PACK]) []
+    = .ok [.bytes [5, 2, 0, 0, 0, 12, 7, 4, 1, 0, 0, 0, 1, 97, 5, 9, 3, 10]] :=
+  run_ok env0 20 _ [] _ (by rfl)
+-- a lambda or an address has a packed form too, but not in the model: not a packable type here
+example : Typing.typeInstr false .PACK [.address] = none := by rfl
 
 -- non-vacuity of `welltyped_run_eq_reference` / `progress`: a well-typed program with a loop, a lambda call and a sorted
 -- set literal, run on a well-typed input stack; the hypotheses hold and the run is inside the guard
